@@ -182,6 +182,8 @@ class AtomicMultiChannelPulseTemplate(AtomicPulseTemplate, ParameterConstrainer)
             data['parameter_constraints'] = [str(constraint) for constraint in self.parameter_constraints]
         if self.measurement_declarations:
             data['measurements'] = self.measurement_declarations
+        if self._duration is not None:
+            data['duration'] = self._duration
 
         return data
 
